@@ -79,7 +79,11 @@ def _bucket(e):
 
 
 def _state():
-    return (tuple(sorted(vars(fsic.parser))), tuple(sorted(fsic.parser.replacement_function_names.items())),
+    import sys
+    # every module-level binding of the package (name and identity of the bound object): a rebinding is a side effect too
+    mods = tuple((name, tuple(sorted((k, id(v)) for k, v in vars(mod).items() if k != '__builtins__')))
+                 for name, mod in sorted(sys.modules.items()) if mod is not None and (name == 'fsic' or name.startswith('fsic.')))
+    return (mods, tuple(sorted(fsic.parser.replacement_function_names.items())),
             tuple((k, id(v)) for k, v in fsic.functions.builtins.items()), tuple(map(id, warnings.filters)),
             len(warnings.filters))
 
@@ -130,7 +134,7 @@ def judge(text, res, *, expect_statements=None, cls='', expect_blocks=None):
         res.fail('side-effect/model-code-executed' + cls, f'{text!r}: parsing/building executed code of the script')
     after = _state()
     if after != before:
-        which = ['parser-module-names', 'replacement-table', 'helper-table', 'warnings-filters', 'warnings-filters'][
+        which = ['package-module-bindings', 'replacement-table', 'helper-table', 'warnings-filters', 'warnings-filters'][
             [a == b for a, b in zip(before, after)].index(False)]
         res.fail(f'side-effect/{which}', f'{text!r} changed {which}')
         warnings.resetwarnings()
